@@ -29,6 +29,13 @@ What is proved here, and what is not:
   this model cannot exhibit them.  They are looked for by the `conc` engine (real node stack,
   8–16 goroutines, `-race` build, watchdog, panic capture); that is testing, not proof.
 
+Known finding F8 (runtime part, seen by the `conc` engine, witness
+`corpus/conc/f8-fd-timestamp-order.ops`): `accrualFailureDetector.Report` samples `time.Now()`
+before taking its mutex; stalled there for at least the bootstrap interval while the liveness
+task creates the node's window, it adds a negative interval and the next `UpdateLiveness`
+panics in `arrivalWindow.Phi`.  It is a panic, not a lock-order or guarded-field violation, so
+none of the theorems below is affected.
+
 The full statement (not provable in this model) would be: *for every schedule of the
 goroutines of a running node, no goroutine blocks forever, none panics, no two unsynchronised
 accesses to the same location occur, and every operation returns within a bound.*
